@@ -739,6 +739,32 @@ MUTANTS = [
             fmt::trace!("Reading SubDevice at position {}", position);
 
             let subdevice = SubDevice::new(self, position, station_address).await?;""")]},
+    {"id": "n-c10-accumulator", "property": "C10", "neutral": True,
+     "edits": [("src/subdevice_group/mod.rs", "        let mut total_checks = 0;\n\n        // Send as many frames as required to check statuses of all subdevices", "        let mut total_checks = 0;\n        let mut all_in_state = true;\n\n        // Send as many frames as required to check statuses of all subdevices"),
+               ("src/subdevice_group/mod.rs", """                // Return from this fn as soon as the first undesired state is found
+                if result.state != desired_state {
+                    return Ok(false);
+                }""", """                // Remember any undesired state; keep polling so the sanity check below always runs
+                all_in_state = all_in_state && result.state == desired_state;"""),
+               ("src/subdevice_group/mod.rs", "        debug_assert_eq!(total_checks, self.len());\n\n        Ok(true)", "        debug_assert_eq!(total_checks, self.len());\n\n        Ok(all_in_state)")]},
+    {"id": "c10-accumulator-overwrite", "property": "C10", "expect": "C10.is_state|compare-every-response",
+     "edits": [("src/subdevice_group/mod.rs", "        let mut total_checks = 0;\n\n        // Send as many frames as required to check statuses of all subdevices", "        let mut total_checks = 0;\n        let mut all_in_state = true;\n\n        // Send as many frames as required to check statuses of all subdevices"),
+               ("src/subdevice_group/mod.rs", """                // Return from this fn as soon as the first undesired state is found
+                if result.state != desired_state {
+                    return Ok(false);
+                }""", """                // Remember the state; keep polling so the sanity check below always runs
+                all_in_state = result.state == desired_state;"""),
+               ("src/subdevice_group/mod.rs", "        debug_assert_eq!(total_checks, self.len());\n\n        Ok(true)", "        debug_assert_eq!(total_checks, self.len());\n\n        Ok(all_in_state)")]},
+    {"id": "c10-skip-first-response", "property": "C10", "expect": "C10.is_state|compare-every-response",
+     "edits": [("src/subdevice_group/mod.rs", "            for pdu in received.into_pdu_iter() {\n                let pdu = pdu?;\n\n                let result = AlControl::unpack_from_slice(&pdu)?;", "            for pdu in received.into_pdu_iter().skip(1) {\n                let pdu = pdu?;\n\n                let result = AlControl::unpack_from_slice(&pdu)?;")]},
+    {"id": "c10-break-on-first-match", "property": "C10", "expect": "C10.is_state|compare-every-response",
+     "edits": [("src/subdevice_group/mod.rs", """                if result.state != desired_state {
+                    return Ok(false);
+                }""", """                if result.state != desired_state {
+                    return Ok(false);
+                } else {
+                    break;
+                }""")]},
     {"id": "n-c10-log-in-transition", "property": "C10", "neutral": True,
      "edits": [("src/subdevice_group/mod.rs", "        fmt::debug!(\"Waiting for group state {}\", desired_state);\n", "        fmt::debug!(\"Waiting for group state {}\", desired_state);\n        fmt::trace!(\"group has {} members\", self.len());\n")]},
     {"id": "n-c07-hoist-start", "property": "C07", "neutral": True, "also": ["C18", "C20"],
